@@ -2,15 +2,15 @@ import TantivyModel.Model.Faults
 /-! Helper lemmas for C11: invariants of the fault model. -/
 namespace TantivyModel.Faults
 
-theorem run_cons (cap : Nat) (F : Nat → Plan) (i : Nat) (s : St) (c : Call) (cs : List Call) :
-    run cap F i s (c :: cs) =
-      ((run cap F (i + 1) (call cap (F i) s c).1 cs).1,
-       (call cap (F i) s c).2 :: (run cap F (i + 1) (call cap (F i) s c).1 cs).2) := rfl
+theorem run_cons (sy : Bool) (cap : Nat) (F : Nat → Plan) (i : Nat) (s : St) (c : Call) (cs : List Call) :
+    run sy cap F i s (c :: cs) =
+      ((run sy cap F (i + 1) (call sy cap (F i) s c).1 cs).1,
+       (call sy cap (F i) s c).2 :: (run sy cap F (i + 1) (call sy cap (F i) s c).1 cs).2) := rfl
 
 /-- an invariant of single calls is an invariant of runs -/
-theorem run_inv (P : St → Prop) (cap : Nat)
-    (hstep : ∀ f s c, P s → P (call cap f s c).1)
-    (F : Nat → Plan) (i : Nat) (s : St) (cs : List Call) (h : P s) : P (run cap F i s cs).1 := by
+theorem run_inv (P : St → Prop) (sy : Bool) (cap : Nat)
+    (hstep : ∀ f s c, P s → P (call sy cap f s c).1)
+    (F : Nat → Plan) (i : Nat) (s : St) (cs : List Call) (h : P s) : P (run sy cap F i s cs).1 := by
   induction cs generalizing i s with
   | nil => exact h
   | cons c cs ih => rw [run_cons]; exact ih (i + 1) _ (hstep _ _ _ h)
@@ -67,16 +67,24 @@ theorem gcRun_delete_fails (f : Plan) (s : St) (w : Writer) (hd : f .gcDelete = 
 
 def segsHaveFiles (segs : List Seg) (files : List Nat) : Prop := ∀ g ∈ segs, g.id ∈ files
 
+/-- what `meta.json` denotes is mirrored by `active_index_meta`, or — only possible when the code
+syncs again after the rename (`sy`) and that barrier failed — it is the committed register -/
+def Mirrors (sy : Bool) (s : St) (w : Writer) : Prop :=
+  w.active = s.metaSegs ∨ (sy = true ∧ ∀ g ∈ s.metaSegs, g ∈ w.committed)
+
 /-- `J`: `meta.json` only references segments whose files exist; so do the writer's registers;
-and a writer whose updater is alive mirrors `meta.json` in `active_index_meta` -/
-def J (s : St) : Prop :=
+and a writer whose updater is alive keeps every segment of `meta.json` referenced -/
+def J (sy : Bool) (s : St) : Prop :=
   segsHaveFiles s.metaSegs s.files ∧
   match s.writer with
   | none => True
   | some w => segsHaveFiles w.committed s.files ∧ segsHaveFiles w.uncommitted s.files ∧
-      segsHaveFiles w.active s.files ∧ (w.killed = false → w.active = s.metaSegs)
+      segsHaveFiles w.active s.files ∧ (w.killed = false → Mirrors sy s w)
 
-theorem J_init : J init := by simp [J, init, segsHaveFiles]
+theorem J_init (sy : Bool) : J sy init := by simp [J, init, segsHaveFiles]
+
+theorem mirrors_refl (sy : Bool) (s : St) (w : Writer) (h : w.active = s.metaSegs) : Mirrors sy s w :=
+  Or.inl h
 
 theorem segsHaveFiles_cons {segs : List Seg} {files : List Nat} (x : Nat)
     (h : segsHaveFiles segs files) : segsHaveFiles segs (x :: files) :=
@@ -92,22 +100,30 @@ theorem mem_living_active {w : Writer} {g : Seg} (h : g ∈ w.active) : g.id ∈
   simp only [living, ids, List.mem_append, List.mem_map]
   exact Or.inr ⟨g, h, rfl⟩
 
+theorem mirrors_living {sy : Bool} {s : St} {w : Writer} (h : Mirrors sy s w) {g : Seg}
+    (hg : g ∈ s.metaSegs) : g.id ∈ living w := by
+  rcases h with h | ⟨_, h⟩
+  · exact mem_living_active (by rw [h]; exact hg)
+  · exact mem_living_committed (h g hg)
+
 /-- GC run for writer `w` in a state whose writer slot holds `w` keeps `J` -/
-theorem J_gcRun (f : Plan) (s : St) (w : Writer) (hw : s.writer = some w) (hj : J s)
-    (hk : w.killed = false) : J (gcRun f s w).1 := by
+theorem J_gcRun (sy : Bool) (f : Plan) (s : St) (w : Writer) (hw : s.writer = some w) (hj : J sy s)
+    (hk : w.killed = false) : J sy (gcRun f s w).1 := by
   obtain ⟨hm, hrest⟩ := hj
   rw [hw] at hrest
   obtain ⟨hc, hu, ha, hact⟩ := hrest
   refine ⟨?_, ?_⟩
   · rw [gcRun_meta]
     intro g hg
-    have : g ∈ w.active := by rw [hact hk]; exact hg
-    exact gcRun_keeps f s w _ (mem_living_active this) (hm g hg)
+    exact gcRun_keeps f s w _ (mirrors_living (hact hk) hg) (hm g hg)
   · rw [gcRun_writer, hw]
     refine ⟨?_, ?_, ?_, ?_⟩
     · intro g hg; exact gcRun_keeps f s w _ (mem_living_committed hg) (hc g hg)
     · intro g hg; exact gcRun_keeps f s w _ (mem_living_uncommitted hg) (hu g hg)
     · intro g hg; exact gcRun_keeps f s w _ (mem_living_active hg) (ha g hg)
-    · intro h; rw [gcRun_meta]; exact hact h
+    · intro h
+      rcases hact h with h1 | ⟨h1, h2⟩
+      · left; rw [gcRun_meta]; exact h1
+      · right; refine ⟨h1, ?_⟩; rw [gcRun_meta]; exact h2
 
 end TantivyModel.Faults
